@@ -140,3 +140,20 @@ MANIFEST_TEXT["C16"] = dict(engine="E-hist", design_ref="DESIGN.md §4 C16",
     technique="explicit-state breadth-first exploration of builder call sequences on the real builders, reference model of accepted calls, side-effect oracle on the Debug rendering",
     level_text="All sequences of valid and invalid calls up to depth 4/5 over 60 sparse parameter sets and the run-length builder; every transition executed on the real builder; every reached state converted and compared with the accepted positions.",
     level_note="Histories longer than the bound and parameters outside the alphabet are not explored.")
+
+PROPS["C14"] = dict(
+    driver="c14", builds=["rel", "dbg"], level="fault_enumeration",
+    rule="E-fault over the C06 catalogue: for each value, EVERY strict prefix of its serialization (byte granularity; for values above 4 KiB quick keeps every byte in the first/last 64 and every 8th byte between) "
+         "must make load return Err, through a plain reader and a 3-byte short-read reader; skip_option over every prefix of Some(value) (and of Option values as serialized) must return Err unless complete, in which case the reader "
+         "stands exactly at the end; every write budget 0..=size with a sink that accepts the budget in <=3-byte chunks (and in one piece) and then fails must make serialize return that error; every 8-byte truncation of the file "
+         "must make the mapped view of the value be refused. Buffered writers: IntVectorWriter / RawVectorWriter scenarios under EVERY RLIMIT_FSIZE limit (step 8 bytes plus unaligned ones, SIGXFSZ ignored) must end in Err from new, "
+         "the documented push panic, or Err from close - or report success with a byte-identical complete file. Each fault point is a distinct case by construction.",
+    bounds={"quick": "144-value catalogue (52 312 byte fault points x load/skip/budget), 275 map truncations, 45 writer scenarios x every limit (4 326 limits below the final size)", "thorough": "extended catalogue, every byte of every value, 75 writer scenarios"},
+    require_counters={"quick": {"writer_limits_below_final_size": 500, "mapped_truncations": 100}, "thorough": {"writer_limits_below_final_size": 500, "mapped_truncations": 100}},
+    assumptions=[HOOK_ASSUMPTION, "a sink answering Interrupted is not part of the fault alphabet (retry-on-interrupt is std's write_all behaviour, not a stated guarantee)", "a writer that is dropped without close() ignores errors by documentation; only close() is held to the property"],
+)
+MANIFEST_TEXT["C14"] = dict(engine="E-fault", design_ref="DESIGN.md §4 C14",
+    technique="exhaustive fault enumeration: every truncation point, every write budget and every file-size limit for a catalogue of all serializable types, on the real load/serialize/skip_option/writer code",
+    level_text="Every byte-granular prefix of ~150 (thorough ~300) values of every Serialize type through load and skip_option, every write budget through serialize with short writes, every 8-byte truncation through the mapped views, "
+               "and every RLIMIT_FSIZE limit through both buffered writers.",
+    level_note="Faults other than truncation / failing sink / file-size limit (e.g. corrupted bytes) are outside the property.")
